@@ -168,7 +168,7 @@ def check(ctx):
         "result must equal model parse_terms and must mean exactly the written relation, decided for all real points by "
         "decomposing the relation over the sign patterns of its absolute values and exact rational LP; each string is parsed "
         "twice. non-trivial = the string is accepted or raises the convexity error; distinct by string")
-    proved = ctx.prove("props/C09.v", ["proofs/SyntaxFacts.v", "proofs/GrammarFacts.v", "proofs/ParseAllFacts.v", "proofs/SyntaxGenTermList.v", "proofs/SyntaxGenAbsTerm.v", "proofs/SyntaxGenAbsTermList.v", "proofs/SyntaxGenSerializer.v", "proofs/SyntaxGenGrammar.v", "proofs/SyntaxGenFold.v"])
+    proved = ctx.prove("props/C09.v", ["proofs/SyntaxFacts.v", "proofs/GrammarFacts.v", "proofs/ParseAllFacts.v", "proofs/SyntaxGenTermList.v", "proofs/SyntaxGenAbsTerm.v", "proofs/SyntaxGenAbsTermList.v", "proofs/SyntaxGenSerializer.v", "proofs/SyntaxGenGrammar.v", "proofs/SyntaxGenFold.v", "proofs/GrammarGenTokens.v", "proofs/GrammarGenTerms.v", "proofs/GrammarGenExpr.v", "proofs/GrammarGenFacts.v"])
     ctx.build(["model/ParseAll.vo"])
     # (a) grammar
     g = gc.selftest(maxlen=3 if ctx.quick else 4, nrandom=800 if ctx.quick else 4000, seed=ctx.seed, verbose=False,
